@@ -10,7 +10,7 @@ from ..model import AnalysisError, unparse
 from ..report import RuleResult
 from ..roles import bound_from, calls, returned_names
 from ..tables import WriterTables
-from ._c01_paths import Paths, Sym, attr_name, default_of, kind_of, kw, make_call_eval, show_set, sources
+from ._c01_paths import Paths, Sym, attr_name, default_of, kind_of, kw, make_call_eval, never_none_fields, record_fields, show_set, sources
 from .c06 import rule_own as _c06_own
 
 
@@ -566,7 +566,8 @@ def rule_flow(ctx) -> RuleResult:
     reg0, reg = anchor(ws, "register")
     rent = reg0.params[1]
     # the branch taken by a PropertyGroup: decided by the class hierarchy (elif chain, dict / tuple table with a lookup helper, ...)
-    P = Paths(reg.node, {rent: "R_ent"}, kinds={"R_ent": kind_of(p, p.cls("PropertyGroup"))}, call_eval=make_call_eval(ctx, reg0))
+    # (the registries are fields that only ever hold containers: `<registry> is None` is false)
+    P = Paths(reg.node, {rent: "R_ent"}, kinds={"R_ent": kind_of(p, p.cls("PropertyGroup"))}, call_eval=make_call_eval(ctx, reg0), nonnull=never_none_fields(ws))
     tg = P.call_nodes(lambda c: attr_name(c) == "add_or_update_property_group" and c.args and P.text(c.args[0]) == "R_ent"
                       and not (kw(c, "remove", 1) is not None and not _is_false(P.X(kw(c, "remove", 1)))))
     want = P.conj("not R_ent.on_file")
@@ -654,7 +655,10 @@ def rule_flow(ctx) -> RuleResult:
         if isinstance(a, ast.Assign) and isinstance(a.targets[0], ast.Tuple) and isinstance(a.value, ast.Name) and a.value.id in roles and all(isinstance(e, ast.Name) for e in a.targets[0].elts):
             roles.update({e.id: f"R_attrs[{i}]" for i, e in enumerate(a.targets[0].elts)})
     roles.update({nm: "R_ent" for nm in bound_from(le.node, lambda e: calls(e, "create_entity"))})
-    P = Paths(le.node, roles)
+    # a NamedTuple / dataclass returned by the reader: its fields read by name are the elements by position
+    fa = R.methods.get("fetch_attributes")
+    rec = record_fields(p, fa) if fa is not None else None
+    P = Paths(le.node, roles, records={"R_attrs": rec} if rec else None)
     creates = [c for c in ast.walk(le.node) if isinstance(c, ast.Call) and P.text(c.func) == "self.create_entity"]
     ok = any(kw(c, "save_on_creation", 1) is not None and _is_false(P.X(kw(c, "save_on_creation", 1))) and {"R_attrs[0]", "R_attrs[1]"} <= {P.text(u) for u in _unpacked(c)} for c in creates)
     chk(ok, "load_entity: create_entity(<kind>, save_on_creation=False, **entity attrs, **type attrs)", "Workspace", "load_entity", "entity not rebuilt from both attribute sets", le0.where,
